@@ -26,6 +26,10 @@ CLAIMS = {
             note="The mapping from edits to debounced notify events is an assumption table (NotifyModel); the real inotify watcher/debouncer is not run. Two unrepaired genuine defects are listed in known_findings.json (watcher terminated by a non-UTF-8 file and by schema removal)."),
  "C21": dict(engine="lsp", design="3/C21", text="TLC enumerates every bounded history of didOpen/didChange/didClose, on-disk edits (with their watcher batch), validations, garbage collections and requests (semantic tokens, formatting, hover, go-to-definition) over two files and four content classes; every history ending in an observation is replayed on a real LspState through the real notification/request handlers, and after every observation a freshly started LspState on the same disk with the same open buffers is asked the same thing; TLC requires every pair of answers to be equal.",
             note="Disk edits reach the server as the NotifyModel's debounced batch (the tokio loop, the real watcher and the debounce timer are not run); hover/definition at one fixed position; the model's own contribution is the history enumeration, the equality is differential."),
+ "C07": dict(engine="isogrammar", design="3/C07", text="The iso-literal language is an explicit grammar-driven transition system in TLA+ (IsoGrammar over LL1.tla); TLC enumerates sentences under several layout schemes, every single-token mutant of the short sentences, and all token soups up to length 3 over a 14-symbol alphabet (integer beyond i64, non-ASCII identifier start, unterminated string, lone dots, end of input at every position) in 8 syntactic contexts; each text is parsed by the real parser (catch_unwind, child process for aborts) and the projection (outcome, every AST/semantic-token/diagnostic span, character boundaries) is judged by TLC against the totality, span well-formedness and token-order predicates.",
+            note="Code points are class representatives; deep-nesting stack overflows are unrepaired genuine defects listed in known_findings.json; generator-vs-parser verdict differences are drift only (C07 does not demand grammar equality)."),
+ "C32": dict(engine="isogrammar", design="3/C32", text="For every TLC-generated sentence (and the parser fixtures) and every character-boundary offset, the real position resolution is run and its node chain recorded together with an independent walk of all resolvable nodes; TLC checks that each chain span contains the offset and its child, that consecutive entries are child/parent, and that no resolvable descendant of the returned node contains the offset.",
+            note="Two explicit readings are counted as drift, not violations: the root declaration stands for the whole literal (keyword/blank offsets resolve to it), and type annotations are atomic. The AST walk of the harness is trusted base."),
 }
 
 checks = []
